@@ -349,13 +349,15 @@ theorem C12_unsafe_needs_match (c : Cfg) (r : Req) (hne : c.extractors ≠ [])
 
 /-- **C12_reject_4xx** — an unsafe request whose token is not held at any configured lookup
     location is rejected with 403 (some location offered tokens, none equal) or 400 (no
-    location offered anything); the handler does not run (`Result.rejected` carries no
-    handler observation: in the model the handler runs exactly in `Result.passed`). -/
+    location offered anything) — through the configured ErrorHandler (`handlerStatus`: nil, or
+    a custom one that writes its own response and returns nil, or returns its own error); in
+    every case the handler does not run (`Result.rejected` carries no handler observation: in
+    the model the handler runs exactly in `Result.passed`). -/
 theorem C12_reject_4xx (c : Cfg) (r : Req) (hne : c.extractors ≠ [])
     (hunsafe : safeMethod r.method = false) (token : Str) (ht : tokenOf c r = some token)
     (hno : ∀ e ∈ c.extractors, ¬ heldAt r e token) :
-    (serve c r = .rejected 403 ∧ ∃ e ∈ c.extractors, (extract r e).isSome) ∨
-    (serve c r = .rejected 400 ∧ ∀ e ∈ c.extractors, extract r e = none) := by
+    (serve c r = .rejected (handlerStatus c 403) ∧ ∃ e ∈ c.extractors, (extract r e).isSome) ∨
+    (serve c r = .rejected (handlerStatus c 400) ∧ ∀ e ∈ c.extractors, extract r e = none) := by
   unfold serve
   simp only [ht, hunsafe, Bool.false_eq_true, ite_false]
   have hm : ¬ hasMatch token r c.extractors = true := by
@@ -381,9 +383,16 @@ theorem C12_reject_4xx (c : Cfg) (r : Req) (hne : c.extractors ≠ [])
     simp only [hs, hn]
     exact ⟨by simp, hall⟩
 
-/-- every rejection is a 4xx: 400 or 403 -/
+theorem handlerStatus_4xx (c : Cfg) (s : Nat) (h : s = 400 ∨ s = 403) :
+    400 ≤ handlerStatus c s ∧ handlerStatus c s < 500 := by
+  unfold handlerStatus
+  split <;> omega
+
+/-- every rejection is a 4xx: 400 or 403 with the default (nil) ErrorHandler, the custom
+    handler's own 4xx otherwise; and only unsafe methods are ever rejected -/
 theorem C12_reject_status (c : Cfg) (r : Req) (s : Nat) (h : serve c r = .rejected s) :
-    (s = 400 ∨ s = 403) ∧ safeMethod r.method = false := by
+    (s = handlerStatus c 400 ∨ s = handlerStatus c 403) ∧ (400 ≤ s ∧ s < 500) ∧
+    (c.errorHandler = 0 → s = 400 ∨ s = 403) ∧ safeMethod r.method = false := by
   unfold serve at h
   cases ht : tokenOf c r with
   | none => simp [ht] at h
@@ -392,12 +401,18 @@ theorem C12_reject_status (c : Cfg) (r : Req) (s : Nat) (h : serve c r = .reject
     · simp [ht, hs] at h
     · have hs' : safeMethod r.method = false := by simpa using hs
       simp only [ht, hs', Bool.false_eq_true, ite_false] at h
-      refine ⟨?_, hs'⟩
-      split at h
-      · simp only [Result.rejected.injEq] at h; exact Or.inr h.symm
-      · split at h
-        · simp only [Result.rejected.injEq] at h; exact Or.inl h.symm
-        · simp at h
+      have key : s = handlerStatus c 400 ∨ s = handlerStatus c 403 := by
+        split at h
+        · simp only [Result.rejected.injEq] at h; exact Or.inr h.symm
+        · split at h
+          · simp only [Result.rejected.injEq] at h; exact Or.inl h.symm
+          · simp at h
+      refine ⟨key, ?_, ?_, hs'⟩
+      · rcases key with k | k
+        · rw [k]; exact handlerStatus_4xx c 400 (Or.inl rfl)
+        · rw [k]; exact handlerStatus_4xx c 403 (Or.inr rfl)
+      · intro h0
+        simpa [handlerStatus, h0] using key
 
 /-- **C12_safe_passes** — GET, HEAD, OPTIONS and TRACE (exactly these strings) always pass,
     whatever cookie and client tokens the request carries. -/
@@ -471,7 +486,9 @@ example : createExtractors (lit "header") = none := by decide
 
 /-! ## non-vacuity: concrete requests -/
 
-def cfgDefault : Cfg := ⟨4, [.header (lit "X-Csrf-Token") []], lit "_csrf"⟩
+def cfgDefault : Cfg := ⟨4, [.header (lit "X-Csrf-Token") []], lit "_csrf", 0⟩
+/-- a custom ErrorHandler that writes 418 and returns nil: still rejected, handler not run -/
+def cfgCustomEH : Cfg := ⟨4, [.header (lit "X-Csrf-Token") []], lit "_csrf", 1⟩
 
 def reqOK : Req :=
   ⟨lit "POST", [(lit "_csrf", lit "tokn")], [(lit "X-Csrf-Token", lit "tokn")], [], [], []⟩
@@ -483,6 +500,7 @@ def reqFresh : Req := ⟨lit "GET", [], [], [], [], [0, 1, 26, 51, 0]⟩
 example : serve cfgDefault reqOK = .passed (lit "tokn") (lit "tokn") := by decide
 example : serve cfgDefault reqNear = .rejected 403 := by decide
 example : serve cfgDefault reqMissing = .rejected 400 := by decide
+example : serve cfgCustomEH reqNear = .rejected 418 ∧ serve cfgCustomEH reqOK = .passed (lit "tokn") (lit "tokn") := by decide
 example : serve cfgDefault reqFresh = .passed (lit "ABaz") (lit "ABaz") := by decide
 example : cfgDefault.extractors ≠ [] ∧ safeMethod reqOK.method = false := by decide
 
